@@ -52,6 +52,19 @@ class InlineExcept(SeqPolicy):
         return SeqPolicy.inline(self, callee, body, depth)
 
 
+class InlineAlso(SeqPolicy):
+    """SeqPolicy, and the named public functions as well: accessors whose own rows are imported by the rule using this policy
+    (`get`, `nth`, `len`), so that `self.slice.get(i)?` and the explicit bounds test followed by the decode are one form"""
+
+    def __init__(self, *paths):
+        self.paths = paths
+
+    def inline(self, callee, body, depth):
+        if body["path"] in self.paths:
+            return True
+        return SeqPolicy.inline(self, callee, body, depth)
+
+
 class InlineAll(terms.Policy):
     def inline(self, callee, body, depth):
         return True
@@ -303,6 +316,23 @@ def is_decode(t, nth=True):
             return a[2][0]
     if nth and isinstance(t, tuple) and t[0] == "call" and t[1] == "seq::slice::SeqSlice::<A>::nth" and len(t[2]) == 2:
         return ("sym1", t[2][0], nf.canon(t[2][1]))
+    if isinstance(t, tuple) and t[0] == "call" and t[1] == "<A as codec::Codec>::unsafe_from_bits":
+        a = t[2][0]
+        # the symbol's bit window loaded directly: load_le::<u8>(bits(X)[BITS*i .. BITS*i + BITS]) is what `Into<u8>` of the
+        # one-symbol slice X[i] does (C03 S-byte)
+        if isinstance(a, tuple) and a[0] == "call" and re.search(r"BitField>::load_le::<u8>$", a[1]) and len(a[2]) == 1:
+            w = a[2][0]
+            if isinstance(w, tuple) and w[0] == "bslice" and isinstance(w[1], tuple) and w[1][0] == "bits" and w[3] is not None:
+                lo, hi = nf.poly(w[2]), nf.poly(w[3])
+                width = nf.padd(hi, lo, -1)
+                if nf.pkey({k: v for k, v in width.items() if v}) == nf.pkey({(BITS,): 1}) and all(BITS in m for m in lo if lo[m]):
+                    idx = {}
+                    for m, cf in lo.items():
+                        if cf:
+                            mm = list(m)
+                            mm.remove(BITS)
+                            idx[tuple(mm)] = cf
+                    return ("sym1", w[1][1], ("poly", nf.pkey(idx)))
     return None
 
 
